@@ -46,7 +46,11 @@ FINISH = dict(
          "recorder hooks in nested groups: per event sequence (holds), per authorization the interleaving "
          "hooks/POST/poll/clean hooks (Hooks.authFragment), brackets with before/after snapshots, clean = "
          "challenge data but is_clean_hook (Hooks.markClean), environment precedence (envHolds), documented "
-         "variables. non-trivial = at least one hook of the event's type is attached / the configuration "
+         "variables. py/ext/c10x.py: content of the stdout / stderr files, typed template variables ({% if %}, | length, "
+         "{% for %}), empty environment values, IP / wildcard+base identifiers through the real constructors, hook "
+         "inputs and outputs defined in the configuration FILE (every member of every resolved hook; stdin+stdin_str "
+         "refused), flows started from a key-only / certificate-only / due pair with and without kp_reuse, two "
+         "certificates with different hooks, accounts and tables in one daemon. non-trivial = at least one hook of the event's type is attached / the configuration "
          "is accepted / the flow reached the first hook.",
 )
 
@@ -811,7 +815,7 @@ def config_part(ctx, root):
 
 ID_POOL = [("example.org", "http-01"), ("www.example.org", "dns-01"), ("*.example.net", "dns-01"),
            ("alpn.example.com", "tls-alpn-01"), ("b.example.org", "http-01"), ("d.example.org", "dns-01"),
-           ("t.example.org", "tls-alpn-01")]
+           ("t.example.org", "tls-alpn-01"), ("example.net", "http-01")]
 FLOW_KINDS = ["ok", "allow", "chall-abort", "renew", "clean-abort", "pre-abort", "ok", "allow", "chall-abort",
               "renew", "post-abort", "postop-fail"]
 
@@ -933,6 +937,7 @@ def flow_config(spec, root, url, phase):
                         "env": spec["account_env"]}],
            "certificate": [{"name": "crt", "endpoint": "ep1", "account": "acc1", "identifiers": idents,
                             "hooks": spec["cert_hooks"], "env": spec["cert_env"], "key_type": "ecdsa_p256"}]}
+    cfg["certificate"][0].update(spec.get("cert_extra") or {})      # (py/ext/c10x.py: kp_reuse)
     return cfg, log, idents
 
 
@@ -973,6 +978,9 @@ def run_flow_phase(ctx, spec, root, helper, ca, phase, doc, replay_obj):
     n_post_expected = len(model([{"op": "hooks_call", "hooks": attached["certificate"], "type": "post-operation",
                                        "exits": [exit_token(beh[h["name"]]) for h in attached["certificate"]
                                                  if "post-operation" in h["types"]]}])[0]["ran"])
+    if phase == 1 and spec.get("pre_files"):
+        from ext import c10x
+        c10x.write_pre_files(spec, crt_path, key_path)     # start from a key-only / certificate-only / due pair
     before = {p: flow.file_obs(p) for p in (crt_path, key_path)}
     acc_files_before = {}
     if os.path.isdir(accounts_dir):
@@ -1298,6 +1306,8 @@ def flow_part(ctx, root, doc):
     n = 24 if ctx.quick() else 400
     specs = [gen_flow(ctx.rng, i, FLOW_KINDS[i % len(FLOW_KINDS)]) for i in range(n)]
     specs += [c["spec"] for c in vlib.corpus("C10") if c.get("part") == "flow"]
+    from ext import c10x
+    specs += c10x.flow_specs(ctx, gen_flow)
     with concurrent.futures.ThreadPoolExecutor(max_workers=6) as ex:
         futs = [ex.submit(run_flow, ctx, s, os.path.join(root, "flow%d" % i), doc) for i, s in enumerate(specs)]
         for f in futs:
@@ -1359,6 +1369,9 @@ def replay(ctx):
             judge_config(ctx, case, res, text)
         elif part == "flow":
             run_flow(ctx, obj["spec"], os.path.join(root, "flow"), doc)
+        elif str(part).startswith("x:"):
+            from ext import c10x
+            c10x.replay(ctx, obj, os.path.join(root, "x"))
         else:
             print("nothing to replay")
             return 2
@@ -1383,9 +1396,12 @@ def run(ctx):
     shutil.rmtree(root, ignore_errors=True)
     os.makedirs(root)
     try:
+        from ext import c10x
+        hx = c10x.start(ctx, os.path.join(root, "x"))      # runs in the background, judged last
         for name, part in (("call", lambda: call_part(ctx, root, doc)),
                            ("config", lambda: config_part(ctx, os.path.join(root, "config"))),
-                           ("flow", lambda: flow_part(ctx, os.path.join(root, "flows"), doc))):
+                           ("flow", lambda: flow_part(ctx, os.path.join(root, "flows"), doc)),
+                           ("x", lambda: c10x.finish(ctx, hx))):
             t = time.time()
             part()
             ctx.notes.append("part %s: %.1f s" % (name, time.time() - t))
